@@ -68,7 +68,7 @@ theorem self_corr (F : ι → ℚ × ℚ) : num F F = pw F ∧ den2 F F = pw F ^
 
 /-- **Shell membership**: a bin of radius `r` gets label `L = int(r / dfreq)`, i.e. it lies in the
 half-open shell `[L·dfreq, (L+1)·dfreq)` of the requested width — every bin has exactly one label. -/
-theorem shell_of_label (r dfreq : ℚ) (hr : 0 ≤ r) (hd : 0 < dfreq) :
+theorem shell_of_label (r dfreq : ℚ) (hr : 0 ≤ r) (hd : 0 < dfreq) (hsmall : r / dfreq < 65536) :
     ((Gen.fscLabel r dfreq : Int) : ℚ) * dfreq ≤ r ∧ r < (((Gen.fscLabel r dfreq : Int) : ℚ) + 1) * dfreq
       ∧ 0 ≤ Gen.fscLabel r dfreq := by
   simp only [Gen.fscLabel]
@@ -76,6 +76,12 @@ theorem shell_of_label (r dfreq : ℚ) (hr : 0 ≤ r) (hd : 0 < dfreq) :
   have h1 := Py.trunc_le_of_nonneg (r / dfreq) hq
   have h2 := Py.trunc_gt (r / dfreq)
   have h3 := Py.trunc_nonneg_of_nonneg (r / dfreq) hq
+  -- the labels are stored as uint16: fewer than 65536 shells (radius ≤ 0.87, dfreq ≥ 1/size)
+  have hlt : Py.trunc (r / dfreq) < 65536 := by
+    have : ((Py.trunc (r / dfreq) : Int) : ℚ) < ((65536 : Int) : ℚ) := by
+      push_cast; linarith
+    exact_mod_cast this
+  rw [Py.imod_of_lt _ _ h3 hlt]
   refine ⟨?_, ?_, h3⟩
   · calc ((Py.trunc (r / dfreq) : Int) : ℚ) * dfreq ≤ (r / dfreq) * dfreq :=
         mul_le_mul_of_nonneg_right h1 hd.le
